@@ -23,10 +23,18 @@ Interaction classes need:
           if ...: return ...
   is `retry_loop N 0 (fun it => let '(a, b) := sec it x i in ...)`, where the new parameter
   `sec : nat -> R -> Z -> R * R` is "the result of the it-th call of
-  _choose_secondary_fractions" (hand model: Model/Secondaries.v).  The function can fall off
+  _choose_secondary_fractions" (instantiated in the proofs with the translated function).  The function can fall off
   its end (Python None): its result type is `option (option T)` -- None: raises,
   Some None: returns None, Some (Some v): returns v.
-* np.random.rand() draws are fresh parameters u1 u2 ... (py2coq).
+* functions with data-dependent `for` loops (_choose_secondary_fractions) are translated in stream
+  mode: np.random.rand() / np.random.poisson(lam) take the next element of the parameters
+  `us : list R` / `ns : list Z` (draw / draw_poisson, dynamic order; a draw must be the whole
+  right-hand side of an assignment); `for _ in range(n): body` (no return/break/continue) is
+  `for_range (Z.to_nat n) (fun '(carried, ns, us) => body) (carried, ns, us)`; module-level tables
+  `_int_*[i]`, `_y_cum_*[i]` are fields of the parameter record SecTables; string constants and
+  `==` on them are Coq strings; np.interp(x, xp, np.linspace(0, 1, len(xp))) is np_interp_last /
+  linspace01.
+* elsewhere np.random.rand() draws are fresh parameters u1 u2 ... (py2coq).
 Everything else raises TranslationError (fail-closed).
 """
 import ast
@@ -41,7 +49,7 @@ from py2coq import Module, ClassTr, FnTr, TranslationError, coq_type as base_coq
 INTER_RECORD = [("kind", "Z"), ("pid", "Z"), ("energy", "R"), ("inelasticity", "R"),
                 ("include_secondaries", "bool")]
 MEMBERS = ["choose_interaction", "choose_inelasticity", "cross_section", "total_cross_section",
-           "interaction_length", "total_interaction_length", "choose_shower_fractions"]
+           "interaction_length", "total_interaction_length", "choose_shower_fractions", "_choose_secondary_fractions"]
 
 
 class NeedOpt(Exception):
@@ -81,6 +89,8 @@ def int_literal(n):
 
 
 def coq_type(t, mod=None):
+    if t in ("str", "streamR", "streamZ"):
+        return {"str": "string", "streamR": "list R", "streamZ": "list Z"}[t]
     if t.startswith("opt:"):
         return "option " + coq_type(t[4:], mod)
     if t.startswith("optn:"):
@@ -100,6 +110,10 @@ class PFnTr(FnTr):
         self.pending = []          # (variable, option-valued call) to bind in front of the statement
         self.uses_sec = False
         self.nbind = 0
+        self.stream_mode = False   # function with data-dependent for loops: draws come from the streams ns / us
+        self.uses_tabs = False
+        self.cur_assign_value = None
+        self.tables = {}           # module-level table name -> element type
 
     # ------------------------------------------------------------------ expressions
     def e_Attribute(self, n):
@@ -133,11 +147,37 @@ class PFnTr(FnTr):
                     self.err(n, "a raising property inside the retry loop is not supported")
                 self.nbind += 1
                 v = "val%d" % self.nbind
-                self.pending.append((v, "(%s %s)" % (r[0], self.self_name)))
+                call = "(%s %s)" % (r[0], self.self_name)
+                self.pending.append(lambda code, v=v, call=call:
+                                    "match %s with\n  | Some %s => %s\n  | None => None\n  end" % (call, v, code))
                 return v, r[2][4:]
         return super().self_attr(n, attr)
 
+    def e_Constant(self, n):
+        if isinstance(n.value, str):
+            if '"' in n.value:
+                self.err(n, "unsupported string literal")
+            return '"%s"%%string' % n.value, "str"
+        return super().e_Constant(n)
+
+    def e_Subscript(self, n):
+        if isinstance(n.value, ast.Name) and n.value.id not in self.vars and n.value.id in self.tables:
+            idx, ti = self.expr(n.slice)
+            if ti != "Z":
+                self.err(n, "module-level tables are indexed with an integer variable")
+            self.uses_tabs = True
+            return "(Tab%s tabs %s)" % (n.value.id, idx), self.tables[n.value.id]
+        return super().e_Subscript(n)
+
     def e_Compare(self, n):
+        if len(n.ops) == 1 and isinstance(n.ops[0], (ast.Eq, ast.NotEq)):
+            ca, ta = self.expr(n.left)
+            if ta == "str":
+                cb, tb = self.expr(n.comparators[0])
+                if tb != "str":
+                    self.err(n, "comparison of a string with %s" % tb)
+                c = "(String.eqb %s %s)" % (ca, cb)
+                return (c if isinstance(n.ops[0], ast.Eq) else "(negb %s)" % c), "bool"
         if len(n.ops) == 1:
             a, b = n.left, n.comparators[0]
             ia, ib = int_literal(a), int_literal(b)
@@ -156,6 +196,35 @@ class PFnTr(FnTr):
         if isinstance(f, ast.Name) and f.id == "bool" and len(n.args) == 1 and not n.keywords:
             return self.boolean(n.args[0])
         d = self.dotted(f)
+        if self.stream_mode and d and d[:2] == ("np", "random"):
+            if n is not self.cur_assign_value or n.keywords:
+                self.err(n, "in a function with for loops a random draw must be the whole right-hand side of an assignment")
+            self.nbind += 1
+            if d[2] in ("rand", "random_sample", "random") and not n.args:
+                v = "rnd%d" % self.nbind
+                self.pending.append(lambda code, v=v: "let '(%s, us) := draw us in\n  %s" % (v, code))
+                return v, "R"
+            if d[2] == "poisson" and len(n.args) == 1:
+                lam, _ = self.num(n.args[0])
+                v = "cnt%d" % self.nbind
+                self.pending.append(lambda code, v=v, lam=lam: "let '(%s, ns) := draw_poisson %s ns in\n  %s" % (v, lam, code))
+                return v, "Z"
+            self.err(n, "unsupported random draw")
+        if d == ("np", "interp") and len(n.args) == 3 and not n.keywords:
+            x, _ = self.num(n.args[0])
+            xp, t1 = self.expr(n.args[1])
+            fp, t2 = self.expr(n.args[2])
+            if t1 != "listR" or t2 != "listR":
+                self.err(n, "np.interp(x, list, list) expected")
+            return "(np_interp_last %s %s %s)" % (x, xp, fp), "R"
+        if d == ("np", "linspace") and len(n.args) == 3 and not n.keywords:
+            a0, a1, a2 = n.args
+            if int_literal(a0) == 0 and int_literal(a1) == 1 and isinstance(a2, ast.Call) and isinstance(a2.func, ast.Name) \
+                    and a2.func.id == "len" and len(a2.args) == 1:
+                l, tl = self.expr(a2.args[0])
+                if tl == "listR":
+                    return "(linspace01 (List.length %s))" % l, "listR"
+            self.err(n, "only np.linspace(0, 1, len(list)) is supported")
         if d == (self.self_name, "_choose_secondary_fractions"):
             if not self.loop_mode or n.keywords or len(n.args) != 2:
                 self.err(n, "_choose_secondary_fractions is only supported as the draw of the retry loop")
@@ -175,8 +244,8 @@ class PFnTr(FnTr):
         code = self.block1(stmts, k)
         binds = self.pending[mark:]
         del self.pending[mark:]
-        for v, call in reversed(binds):
-            code = "match %s with\n  | Some %s => %s\n  | None => None\n  end" % (call, v, code)
+        for wrap in reversed(binds):
+            code = wrap(code)
         return code
 
     def wrap_ret(self, c):
@@ -188,8 +257,64 @@ class PFnTr(FnTr):
             return "Some %s" % c
         return c
 
+    def loaded_names(self, stmts):
+        out = set()
+        for st in stmts:
+            for x in ast.walk(st):
+                if isinstance(x, ast.Name):
+                    out.add(x.id)
+        return out
+
+    def for_loop(self, s, rest, k):
+        """for _ in range(n): body   (no return/break/continue)  ->  for_range (Z.to_nat n) (fun state => body) state"""
+        it = s.iter
+        if not (isinstance(it, ast.Call) and isinstance(it.func, ast.Name) and it.func.id == "range" and len(it.args) == 1
+                and not it.keywords and isinstance(s.target, ast.Name) and not s.orelse):
+            self.err(s, "only `for name in range(n):` loops are supported")
+        cnt, tc = self.expr(it.args[0])
+        if tc != "Z":
+            self.err(s, "range() of %s" % tc)
+        for st in s.body:
+            for x in ast.walk(st):
+                if isinstance(x, (ast.Return, ast.Break, ast.Continue, ast.While, ast.For, ast.Raise)):
+                    self.err(x, "unsupported statement inside a for loop")
+                if isinstance(x, ast.Name) and x.id == s.target.id:
+                    self.err(x, "the loop variable must not be used")
+
+        def assigned_deep(stmts):
+            out = []
+            for st in stmts:
+                for x in ast.walk(st):
+                    if isinstance(x, (ast.Assign, ast.AugAssign)):
+                        for t in (x.targets if isinstance(x, ast.Assign) else [x.target]):
+                            out += py2coq.names_of(t)
+            return out
+        carried = [v for v in dict.fromkeys(assigned_deep(s.body)) if v in self.vars]
+        carried += [v for v in ("ns", "us") if v in self.vars and v not in carried]
+        types = [self.vars[v][1] for v in carried]
+        saved = dict(self.vars)
+        for v, t in zip(carried, types):
+            self.vars[v] = (v, t)
+
+        def kk():
+            parts = [self.vars[v] for v in carried]
+            if [t for _, t in parts] != types:
+                self.err(s, "a loop-carried variable changes its type")
+            return py2coq.tuple_code([c for c, _ in parts])
+        body = self.block(list(s.body), kk)
+        self.vars = saved
+        for v, t in zip(carried, types):
+            self.vars[v] = (v, t)
+        pat = py2coq.tuple_code(carried)
+        bind = "'%s" % pat if len(carried) > 1 else pat
+        return "let %s := for_range (Z.to_nat %s) (fun %s =>\n  %s) %s in\n  %s" % (
+            bind, cnt, bind, body, pat, self.block(rest, k))
+
     def block1(self, stmts, k):
         s, rest = stmts[0], stmts[1:]
+        self.cur_assign_value = s.value if isinstance(s, ast.Assign) else None
+        if isinstance(s, ast.For):
+            return self.for_loop(s, rest, k)
         if isinstance(s, ast.Return):
             if s.value is None:
                 self.err(s, "bare return")
@@ -229,6 +354,9 @@ class PFnTr(FnTr):
             # both branches continue with `rest`: translate it once as a local function of the
             # variables the branches assign  (if c: A else: B; rest == if c: A; rest else: B; rest)
             vs = self.assigned(s.body) + [v for v in self.assigned(s.orelse) if v not in self.assigned(s.body)]
+            used = self.loaded_names(rest)
+            vs = [v for v in vs if v in used]
+            vs += [v for v in ("ns", "us") if v in self.vars and v not in vs]
             self.ncont = getattr(self, "ncont", 0) + 1
             name = "cont%d" % self.ncont
             seen = []
@@ -293,6 +421,8 @@ class PFnTr(FnTr):
 
 
 class PClassTr(ClassTr):
+    tables = {}
+
     def __init__(self, *a, **kw):
         super().__init__(*a, **kw)
         self.fn_class = PFnTr
@@ -316,12 +446,19 @@ class PClassTr(ClassTr):
             args = args[1:]
         else:
             tr.self_name = "\0"
+        ptypes = self.param_types.get(pkey, {})
         for a in args:
-            tr.vars[a] = (a, "R")
-            params.append("(%s : R)" % a)
+            t = ptypes.get(a, "R")
+            tr.vars[a] = (a, t)
+            params.append("(%s : %s)" % (a, coq_type(t, self.mod)))
         tr.ret_types = []
         tr.raises = False
         tr.opt_mode = opt
+        tr.tables = self.tables
+        tr.stream_mode = any(isinstance(x, ast.For) for x in ast.walk(node))
+        if tr.stream_mode:
+            tr.vars["ns"] = ("ns", "streamZ")
+            tr.vars["us"] = ("us", "streamR")
         whiles = [x for x in ast.walk(node) if isinstance(x, ast.While)]
         tr.none_ret = bool(whiles)
         if tr.none_ret and not opt:
@@ -348,6 +485,10 @@ class PClassTr(ClassTr):
             rt_out = "opt:" + rt
         else:
             rt_out = rt
+        if tr.uses_tabs:
+            params.insert(1 if has_self else 0, "(tabs : SecTables)")
+        if tr.stream_mode:
+            params += ["(ns : list Z)", "(us : list R)"]
         if tr.uses_sec:
             params.append("(sec : nat -> R -> Z -> R * R)")
         params += ["(%s : R)" % u for u in tr.randoms]
@@ -371,11 +512,36 @@ def generate(repo):
     for nm in ("electron_neutrino", "electron_antineutrino", "muon_neutrino", "muon_antineutrino",
                "tau_neutrino", "tau_antineutrino"):
         mod.emit("Definition Pid_%s : Z := %s." % (nm, zlit(PFnTr.ptype[nm])))
+    # module-level secondary tables: _int_<x> = np.sum(...) (one number per energy index),
+    # _y_cum_<x> = cumulative distribution (one row per energy index); they are parameters (record SecTables)
+    tables = {}
+    for n in mod.tree.body:
+        if isinstance(n, ast.Assign) and len(n.targets) == 1 and isinstance(n.targets[0], ast.Name):
+            nm = n.targets[0].id
+            if nm.startswith("_int_"):
+                tables[nm] = "R"
+            elif nm.startswith("_y_cum_"):
+                tables[nm] = "listR"
+    PClassTr.tables = tables
+    mod.emit("Record SecTables := mkSecTables {\n  %s\n}." % ";\n  ".join(
+        "Tab%s : Z -> %s" % (nm, "R" if t == "R" else "list R") for nm, t in tables.items()))
+    done_nodes = {}
     for cname in ("GQRSInteraction", "CTWInteraction"):
-        ct = PClassTr(mod, cname, record="Inter", prefix=cname.replace("Interaction", ""))
+        pre = cname.replace("Interaction", "")
+        ct = PClassTr(mod, cname, record="Inter", prefix=pre,
+                      param_types={"_choose_secondary_fractions": {"energy_index": "Z"}})
         for m in MEMBERS:
-            if ct.member(m) is None:
+            _, node = mod.find_member(cname, m)
+            if node is None:
                 raise TranslationError("pyrex/particle.py: %s.%s not found" % (cname, m))
+            if m == "_choose_secondary_fractions" and id(node) in done_nodes:
+                # inherited unchanged: one translation serves both classes
+                mod.emit("Definition %s_%s := %s." % (pre, m.lstrip("_"), done_nodes[id(node)]))
+                continue
+            r = ct.member(m)
+            if r is None:
+                raise TranslationError("pyrex/particle.py: %s.%s not found" % (cname, m))
+            done_nodes[id(node)] = r[0]
     # the preferred model alias
     alias = None
     for n in mod.tree.body:
@@ -390,7 +556,7 @@ def generate(repo):
         mod.emit("Definition Default_%s %s := %s_%s %s." % (m, sig, pre, m, call))
     mod.emit("Definition default_model_is_CTW : bool := %s." % ("true" if alias == "CTWInteraction" else "false"))
     text = mod.result()
-    text = text.replace("From PyrexLib Require Import RealPrims.", "From PyrexLib Require Import RealPrims PartPrims.", 1)
+    text = text.replace("From PyrexLib Require Import RealPrims.", "From Coq Require Import String.\nFrom PyrexLib Require Import RealPrims PartPrims.", 1)
     return text, mod.hashes
 
 
